@@ -112,11 +112,11 @@ STEP_ITEMS = [
 STEP_TAILS = [("", None), (" !! d 'q", "!! d 'q")]
 
 
-def sweep_cases(maxn, nitems):
-    """Bounded-exhaustive: every sequence of 2..maxn statements over the first `nitems` STEP_ITEMS x every choice of
-    `;` / new line between them x STEP_TAILS behind the last x every schedule of one atom per statement."""
+def sweep_cases(ns, nitems):
+    """Bounded-exhaustive: every sequence of n (in `ns`) statements over the first `nitems` STEP_ITEMS x every choice
+    of `;` / new line between them x STEP_TAILS behind the last x every schedule of one atom per statement."""
     files = {n: ls for n, (ls, _) in STEP_FILES.items()}
-    for n in range(2, maxn + 1):
+    for n in ns:
         for seq in itertools.product(range(nitems), repeat=n):
             for mask in itertools.product([True, False], repeat=n - 1):
                 seps = list(mask) + [False]
@@ -144,10 +144,12 @@ def run_streams(ford, drv, rng, tier, rep, d, marks, c02, which):
     """Evaluates the bounded-exhaustive (`which == "sweep"`) or the random stream; returns statistics for the
     coverage block."""
     cases = []
-    maxn, nitems = (3, 3) if tier == "quick" else (4, 5)
+    # quick: 2..3 statements over 3 items (6 156 cases); thorough: 2..3 over all 5 items and 4 over 3 items (132 876)
+    plans = [((2, 3), 3)] if tier == "quick" else [((2, 3), 5), ((4,), 3)]
     if which == "sweep":
-        for lines, exp, feat, files, sched in sweep_cases(maxn, nitems):
-            cases.append(("step-sweep", lines, exp, feat, files, sched, None, True))
+        for ns, nitems in plans:
+            for lines, exp, feat, files, sched in sweep_cases(ns, nitems):
+                cases.append(("step-sweep", lines, exp, feat, files, sched, None, True))
     n_rand = 0 if which == "sweep" else 1500 if tier == "quick" else 15000
     pushes = ["q = 9", "include 'one.inc'", "!! pushed doc", "", "include \"%s\"" % c02.MISSING_H, "a = 'x;y'"]
     for k in range(n_rand):
@@ -195,6 +197,29 @@ def run_streams(ford, drv, rng, tier, rep, d, marks, c02, which):
             r += [nm, str(len(ls)), *ls]
         reqs.append(r + list(lines))
     model = drv.batch(reqs)
+    # the call-by-call model against the batch model (`Include.readFS`) on the same files: plain iteration to
+    # StopIteration must give the batch model's list (model against model; the link is proved for the queue only)
+    reqs2 = []
+    for (stream, lines, exp, feat, files, sched, cls, disc), (ops, trace, got, end) in zip(cases, impl):
+        tailf = [str(len(files))]
+        for nm, ls in files.items():
+            tailf += [nm, str(len(ls)), *ls]
+        n = len(trace) + 8
+        reqs2.append(["c02.step", *marks, str(n), *(["n"] * n), *tailf, *lines])
+        reqs2.append(["c02.readfs", *marks, *tailf, *lines])
+    both = drv.batch(reqs2)
+    stats["stepwise_vs_batch_model"] = len(cases)
+    for k in range(len(cases)):
+        stp, bat = list(both[2 * k]), list(both[2 * k + 1])
+        if bat[0] == "ok":
+            same = stp == ["ok"] + ["I" + x for x in bat[1:]] + ["E"]
+        else:
+            same = stp[-1:] == ["X" + bat[1]]
+        if not same:
+            stats["disagreements"] += 1
+            rep.tie_broken(f"stepwise model and batch model differ on {cases[k][0]} case {k}",
+                           {"stream": cases[k][0], "lines": cases[k][1], "include_files": cases[k][4],
+                            "stepwise": stp, "batch": bat})
     for k, ((stream, lines, exp, feat, files, sched, cls, disc), (ops, trace, got, end), mo) in enumerate(zip(cases, impl, model)):
         stats["streams"][stream] = stats["streams"].get(stream, 0) + 1
         stats["calls"] += len(ops)
